@@ -99,30 +99,40 @@ Fixpoint call_arg_flags (wsub : list sym) (args : list expr) (fargs : list sym) 
   end.
 
 (* The const-ness of every window struct the compiler names while emitting the body, in emission order:
-   one flag per WindowStmt (comp_s -> get_window_type(s.rhs.type)) and one per WindowExpr call argument. *)
-Fixpoint struct_flags (nc : list sym) (s : stmt) : result (list bool) :=
+   one flag per WindowStmt (comp_s -> get_window_type(s.rhs.type)) and one per WindowExpr call argument.
+   comp_s keeps `self._win_root : window variable -> root buffer it aliases` (never popped):
+       get_window_type(T.Window):  root = self._win_root.get(typ.src_buf, typ.src_buf) ; is_const = root not in self.non_const
+       WindowStmt:  win_struct = self.get_window_type(s.rhs.type) ; ... ;
+                    self._win_root[s.name] = self._win_root.get(s.rhs.name, s.rhs.name)                                  *)
+Section SfList.
+  Variable sf : dict -> stmt -> result (list bool * dict).
+  Fixpoint sf_list (wr : dict) (l : list stmt) : result (list bool * dict) :=
+    match l with
+    | [] => Ok ([], wr)
+    | x :: r =>
+        do (fx, wr1) <- sf wr x;
+        do (fr, wr2) <- sf_list wr1 r;
+        Ok (fx ++ fr, wr2)
+    end.
+End SfList.
+
+Fixpoint struct_flags (nc : list sym) (wr : dict) (s : stmt) {struct s} : result (list bool * dict) :=
   match s with
-  | WindowStmt _ (WindowExpr _ src _) => Ok [win_is_const nc src]
+  | WindowStmt w (WindowExpr b src _) =>
+      Ok ([win_is_const nc (dget wr src src)], (w, dget wr b b) :: wr)
   | WindowStmt _ _ => Err EBadWindowRhs
   | Call fargs fbody args =>
-      do wsub <- get_writes fbody; Ok (call_arg_flags wsub args fargs)
+      do wsub <- get_writes fbody; Ok (call_arg_flags wsub args fargs, wr)
   | If _ body orelse =>
-      do a <- (fix go (l : list stmt) : result (list bool) :=
-                 match l with [] => Ok [] | x :: r => do fx <- struct_flags nc x; do fr <- go r; Ok (fx ++ fr) end) body;
-      do b <- (fix go (l : list stmt) : result (list bool) :=
-                 match l with [] => Ok [] | x :: r => do fx <- struct_flags nc x; do fr <- go r; Ok (fx ++ fr) end) orelse;
-      Ok (a ++ b)
-  | For _ _ body =>
-      (fix go (l : list stmt) : result (list bool) :=
-         match l with [] => Ok [] | x :: r => do fx <- struct_flags nc x; do fr <- go r; Ok (fx ++ fr) end) body
-  | _ => Ok []
+      do (a, wr1) <- sf_list (struct_flags nc) wr body;
+      do (b, wr2) <- sf_list (struct_flags nc) wr1 orelse;
+      Ok (a ++ b, wr2)
+  | For _ _ body => sf_list (struct_flags nc) wr body
+  | _ => Ok ([], wr)
   end.
 
-Fixpoint struct_flags_list (nc : list sym) (l : list stmt) : result (list bool) :=
-  match l with
-  | [] => Ok []
-  | x :: r => do fx <- struct_flags nc x; do fr <- struct_flags_list nc r; Ok (fx ++ fr)
-  end.
+Definition struct_flags_list (nc : list sym) (l : list stmt) : result (list bool) :=
+  do (f, _) <- sf_list (struct_flags nc) [] l; Ok f.
 
 (* All const decisions for one procedure: the buffer arguments in signature order, then the structs of the body. *)
 Definition const_decisions (buf_args : list sym) (body : list stmt) : result (list bool * list bool) :=
